@@ -1,6 +1,17 @@
 from . import rules_hash, inputs
 
 
+CONTROL_PREFIXES = ['C17.1/const SQUARE_VALUES/dup:', 'C17.1/const SQUARE_VALUES/zero:',
+                    'C17.1/const PUSH_VALUES+POSSIBLE_PULL_VALUES/dup:', 'C17.1/const STEP_VALUES/dup:']
+
+
+def controls(cprog, cfacts):
+    from . import core
+    c = core.Ctx('C17', 'control', 'proof')
+    rules_hash.check_tables(c, cprog)
+    keys = [f['key'] for f in c.findings]
+    return [p for p in CONTROL_PREFIXES if not any(k.startswith(p) for k in keys)]
+
 def run(ctx, prog, facts, tier):
     I = inputs.make_interp(prog, fuel=5000000)
     rules_hash.check_tables(ctx, prog)
